@@ -6,6 +6,15 @@ Open Scope string_scope.
 Open Scope list_scope.
 Open Scope N_scope.
 
+Lemma index_of_citem_In l c : forall k, index_of (citem_is c) l = Some k -> In (CElem c) l.
+Proof.
+  induction l as [|[x|d] l IH]; intros k H; cbn in H; [discriminate| |].
+  - destruct (x =? c) eqn:E.
+    + apply N.eqb_eq in E. subst. left. reflexivity.
+    + destruct (index_of (citem_is c) l) eqn:E2; [|discriminate]. right. eapply IH. reflexivity.
+  - destruct (index_of (citem_is c) l) eqn:E2; [|discriminate]. right. eapply IH. reflexivity.
+Qed.
+
 (* ------------------------------------------------------------------ solvers *)
 (* goal: ~ P x *)
 Ltac np :=
@@ -15,6 +24,8 @@ Ltac np :=
     | H : GoodN ?P _ ?n, E : n_parent ?n = PElem ?p |- ~ ?P ?p => exact (proj1 (proj2 H) p E)
     | H : GoodN ?P _ ?n, E : n_content ?n = CElem ?c :: _ |- ~ ?P ?c => apply (proj1 H); rewrite E; left; reflexivity
     | H : GoodN ?P _ ?n, I : In (CElem ?c) (n_content ?n) |- ~ ?P ?c => exact (proj1 H c I)
+    | H : GoodN ?P _ ?n, E : index_of (citem_is ?c) (n_content ?n) = Some _ |- ~ ?P ?c =>
+      exact (proj1 H c (index_of_citem_In _ _ _ E))
     | H : GoodM ?P ?x |- ~ ?P (m_root ?x) => exact (proj1 H)
     | H : OutO ?P (Some ?c) |- ~ ?P ?c => exact (H c eq_refl)
     | H : OutC ?P (CElem ?c :: _) |- ~ ?P ?c => apply H; left; reflexivity
@@ -65,13 +76,41 @@ Ltac good :=
                           | match goal with H : GoodN _ _ ?n |- _ => exact (proj2 (proj2 H)) end ] ] ].
 Ltac goodf := let n := fresh "n" in let Hn := fresh "Hn" in intros n Hn; good.
 
+(* goals about the values of index maps *)
+Ltac allv :=
+  repeat first
+  [ assumption
+  | apply AllV_nil
+  | apply AllV_insert | apply AllV_snoc
+  | (eapply AllV_incl; [ intros ?; first [apply in_assoc_remove | apply in_assoc_swap_remove] | ])
+  | apply OutI_app | apply OutI_one
+  | match goal with
+    | H : GoodM ?P ?x |- AllV _ (m_idents ?x) => exact (GoodM_idents P x H)
+    | H : GoodM ?P ?x |- AllV _ (m_origins ?x) => exact (GoodM_origins_all P x H)
+    | H : GoodM ?P ?x, E : assoc_get _ (m_origins ?x) = Some ?l |- CopyProofsIrp.OutI _ ?l => exact (GoodM_origins P x _ l H E)
+    | |- AllV _ (match ?x with _ => _ end) => destruct x eqn:?
+    | |- CopyProofsIrp.OutI _ _ => outl
+    | |- ~ _ _ => np
+    end ].
+Ltac goodm :=
+  first
+  [ assumption
+  | apply GoodM_set_origins; [goodm | allv]
+  | apply GoodM_set_idents; [goodm | allv]
+  | apply GoodM_set_mfiles; goodm ].
+
 Create HintDb irp discriminated.
 #[export] Hint Extern 1 (~ _ _) => np : irp.
 #[export] Hint Extern 1 (OutC _ _) => outl : irp.
 #[export] Hint Extern 1 (OutI _ _) => outl : irp.
 #[export] Hint Extern 1 (OutP _ _) => outl : irp.
-#[export] Hint Resolve irpq_model_of irpq_dfs_ids irpq_named_paths irpq_ref_texts irpq_first_named irpq_get_sub_element
-  irpq_first_named_item : irp.
+#[export] Hint Extern 1 (irpq _ _ _ (model_of _)) => (eapply irpq_model_of; np) : irp.
+#[export] Hint Extern 1 (irpq _ _ _ (dfs_ids _ _)) => (eapply irpq_dfs_ids; np) : irp.
+#[export] Hint Extern 1 (irpq _ _ _ (named_paths _ _)) => (eapply irpq_named_paths; outl) : irp.
+#[export] Hint Extern 1 (irpq _ _ _ (ref_texts _ _ _)) => (eapply irpq_ref_texts; outl) : irp.
+#[export] Hint Extern 1 (irpq _ _ _ (first_named _ _)) => (eapply irpq_first_named; outl) : irp.
+#[export] Hint Extern 1 (irpq _ _ _ (get_sub_element _ _)) => (eapply irpq_get_sub_element; np) : irp.
+#[export] Hint Extern 1 (irpq _ _ _ (first_named_item _ _ _ _)) => (eapply irpq_first_named_item; outl) : irp.
 #[export] Hint Extern 8 (irpq _ _ _ _) => (apply irp_ro; solve [ro_tac]) : irp.
 #[export] Hint Extern 2 (irpq _ _ _ (add_identifiable _ _ _)) => (apply irp_add_identifiable; [assumption | np]) : irp.
 #[export] Hint Extern 2 (irpq _ _ _ (remove_identifiable _ _)) => (apply irp_remove_identifiable; assumption) : irp.
@@ -110,6 +149,8 @@ Ltac irp_step :=
   | |- irpq _ _ _ (wtry _) => eapply (irp_try _ _ (fun _ => True))
   | |- irpq _ _ _ (set_node _ _) => apply irp_set_node; [np | good]
   | |- irpq _ _ _ (modify_node _ _) => apply irp_modify_node; [np | goodf]
+  | |- irpq _ _ _ (set_model _ _) => apply irp_set_model; [assumption | goodm]
+  | |- irpq _ _ _ (modify_model _ _) => apply irp_modify_model; [assumption | intros ? ?; goodm]
   | |- irpq _ _ _ (match ?x with _ => _ end) => destruct x eqn:?
   | |- irpq _ _ _ (if ?b then _ else _) => destruct b eqn:?
   | |- irpq _ _ _ (let '(_, _) := ?x in _) => destruct x
@@ -176,5 +217,17 @@ Hint Resolve irp_detach : irp.
 Lemma irp_remove_internal fuel : forall i m path, ~ P i -> m <> b -> irp (remove_internal T fuel i m path).
 Proof. induction fuel as [|f IH]; intros i m path Hi Hm; cbn [remove_internal]; irp_tac. Qed.
 Hint Resolve irp_remove_internal : irp.
+
+Lemma irp_raw_remove self sub m : ~ P self -> m <> b -> irp (raw_remove_sub_element T self sub m).
+Proof. intros Hs Hm. unfold raw_remove_sub_element. irp_tac. Qed.
+Hint Resolve irp_raw_remove : irp.
+Lemma irp_e_remove h sub : ~ P h -> irp (e_remove_sub_element T h sub).
+Proof. intros Hh. unfold e_remove_sub_element. irp_tac. Qed.
+Hint Resolve irp_e_remove : irp.
+Lemma irp_e_remove_kind h name : ~ P h -> irp (e_remove_sub_element_kind T h name).
+Proof. intros Hh. unfold e_remove_sub_element_kind. irp_tac. Qed.
+
+Lemma irp_set_item_name h nm : ~ P h -> irp (e_set_item_name T check_fn LATEST h nm).
+Proof. intros Hh. unfold e_set_item_name. irp_tac. Qed.
 
 End Ops.
